@@ -289,7 +289,7 @@ def run(ctx):
                             more_cases=lambda: gen_cases(ctx, n, seeds),
                             correspondence_name="rtr.ParseRTR/Serialize, bfd.UnmarshalBinary/MarshalBinary, mrt.SplitMrt, bmp.SplitBMP vs Codecs.Model")
     # the TABLE_DUMPv2 records the daemon itself writes for its global table (mrtWriter.dumpTable on a whole server), read back
-    dcases = [gen_dump(ctx.rng) for _ in range(ctx.scale(300, 6000))]
+    dcases = [gen_dump(ctx.rng) for _ in range(ctx.scale(300, 3000))]
     cov2 = core.differential(ctx, "c19", proof, dcases, lambda c: c[1], dump_oracle, model_applies=lambda c: False, nontrivial=lambda c: True,
                              model_line_of=lambda c: "rtr 00", correspondence_name="mrtWriter.dumpTable + mrt Serialize / ParseBody on a running server (oracle: the global table listing)",
                              impl_spec=SIM_SPEC, model_name="c19")
